@@ -32,8 +32,10 @@ func (w *World) execSide(r *Replica, ri int, s *Side, point string) {
 		}
 		var txb []byte
 		kind := "garbage"
+		forged := false
 		if s.BlockTx > 0 && s.BlockTx-1 < len(w.curPlans) {
 			p := w.curPlans[s.BlockTx-1]
+			forged = p.Tampered
 			txb = p.Bytes
 			if p.Tx != nil {
 				kind = kindName(p.Tx.Type)
@@ -41,12 +43,17 @@ func (w *World) execSide(r *Replica, ri int, s *Side, point string) {
 			w.Probes.Hit("side.check.block-tx")
 		} else if s.Intent != nil {
 			p := w.materialise(*s.Intent, w.curH, 900+len(w.Log)%50, newScratch())
+			forged = p.Tampered
 			txb = p.Bytes
 			if p.Tx != nil {
 				kind = kindName(p.Tx.Type)
 			}
 		} else {
 			return
+		}
+		if ri == 0 && forged {
+			w.forgedCheckH = w.curH
+			w.Probes.Hit("side.check.forged-on-producer")
 		}
 		res, err := r.CheckTx(txb)
 		w.Probes.Hit("side.check")
@@ -283,6 +290,31 @@ func (w *World) judgeQuery(r *Replica, path string, data []byte, h int64, res *a
 			bad("%d, committed %d", n, m)
 		}
 		w.Probes.Hit("query.judged.total_power")
+	case "stakes/voting_power":
+		// The handler selects with the parameters in force when it is asked (so an answer about a past height
+		// may change when governance changes the minimum or the seat count: not judged then). Judged while
+		// the parameters of height h are still the ones in force and no EndBlock of the running block has
+		// touched them: the total power of the delegatees the selection rule picks from the state of h.
+		pc := pointClass(point)
+		if res.Code != 0 || !(pc == "pre" || pc == "bb.pre" || pc == "bb" || pc == "tx") {
+			return
+		}
+		live := w.M.Gov
+		if !w.selectionParamsStable(h) {
+			return
+		}
+		n, _ := strconv.ParseInt(string(res.Value), 10, 64)
+		want := int64(0)
+		for i, c := range snap.Candidates(live.MinValidatorStake) {
+			if i >= int(live.MaxValidatorCnt) {
+				break
+			}
+			want += c.Power
+		}
+		if n != want {
+			bad("%d, the validators selected from the state of that height hold %d", n, want)
+		}
+		w.Probes.Hit("query.judged.voting_power")
 	case "reward":
 		if len(data) != 20 {
 			return
@@ -662,3 +694,4 @@ func (w *World) judgeVmCall(r *Replica, data []byte, h int64, res *abci.Response
 	}
 	w.Probes.Hit("query.judged.vm_call")
 }
+
